@@ -115,7 +115,9 @@ def run_exe(kind, args, cwd, env=None, timeout=120, sigint_after=None):
         e = dict(os.environ, PYTHONPATH=common.REPO)
     e.update(env or {})
     e['TMPDIR'] = cwd
-    p = subprocess.Popen(argv, cwd=cwd, env=e, stdout=subprocess.PIPE, stderr=subprocess.PIPE, text=True)
+    # a background shell leaves SIGINT ignored, which Python inherits: start the child with the default disposition
+    p = subprocess.Popen(argv, cwd=cwd, env=e, stdout=subprocess.PIPE, stderr=subprocess.PIPE, text=True,
+                         preexec_fn=lambda: signal.signal(signal.SIGINT, signal.SIG_DFL))
     if sigint_after is not None:
         time.sleep(sigint_after)
         p.send_signal(signal.SIGINT)
